@@ -35,6 +35,7 @@ struct crec {
 static struct crec C[MAXC];
 static int nC, nEvents, P_unreg, P_kill;
 static int world_done;
+static int P_quickexit;
 static int handler_ops;
 
 static struct crec *by_pid(int pid)
@@ -140,7 +141,7 @@ static void do_register(struct crec *c, int spawn)
 		sx_assert(iv_wait_interest_register_spawn(wi, spawn_fn, c) == 0, "C11.register_spawn-failed");
 		sx_assert(p_nchildren == before + 1, "C11.spawn-did-not-fork");
 		c->pid = wi->pid;
-		c->alive = 1;
+		c->alive = !P_quickexit;
 		c->spawned = 1;
 	} else {
 		wi->pid = c->pid;
@@ -192,11 +193,39 @@ static void *world_main(void *arg)
 	return NULL;
 }
 
+/* in the parent, right after the child exists (still inside fork()): the child may be gone already */
+static void on_child(int pid)
+{
+	if (P_quickexit) {
+		sx_cover("wait.spawned-child-exits-at-once");
+		p_child_report(pid, P_STATUS_EXITED(7));
+	}
+}
+
+static void *loop2_main(void *arg)
+{
+	struct crec *c = arg;
+
+	iv_init();
+	do_register(c, 1);
+	iv_main();
+	iv_deinit();
+	return NULL;
+}
+
 void sx_on_quiescent(void)
 {
-	int i;
+	int i, j;
 
 	sx_cover("wait.quiescent");
+	/* a child spawned through the library is never missed, however quickly it exits */
+	for (i = 0; i < nC; i++) {
+		if (!C[i].spawned || !C[i].registered)
+			continue;
+		for (j = 0; j < p_nchildren; j++)
+			if (p_children[j].pid == C[i].pid && p_children[j].reaped)
+				sx_assert(C[i].term_delivered, "C11.spawned-child-termination-missed");
+	}
 	sx_assert(world_done, "C11.world-blocked");
 	for (i = 0; i < nC; i++) {
 		if (C[i].registered)
@@ -251,6 +280,16 @@ void sx_main(void)
 			C[i].pid = p_new_child();
 			C[i].alive = 1;
 		}
+	}
+	if (sx_opt("twoloops", 0)) {
+		/* a second loop thread spawns a child that exits at once; this thread holds another interest */
+		pthread_t t2;
+		P_quickexit = 1;
+		p_child_hook = on_child;
+		C[nC].id = nC;
+		nC++;
+		pthread_create(&t2, NULL, loop2_main, &C[nC - 1]);
+		sx_cover("wait.two-loop-threads");
 	}
 	pthread_create(&th, NULL, world_main, NULL);
 	iv_main();
